@@ -25,9 +25,19 @@ CLAIM = {
             "function binding, a leaking error list - are rejected); every enumerated history is replayed on ONE long-lived real key "
             "builder (optimising and not), every compiled template re-evaluated after every later step; seeded random histories over a "
             "shared pool of well-formed and malformed arguments are recorded and validated by TLC. Every empty statement / unregistered "
-            "function has to be reported as an error of its own (error counts, not only classes).",
+            "function has to be reported as an error of its own (error counts, not only classes). "
+            "White space is every Unicode White_Space character (the class the tokenizer separates on): each of the 25 characters is used "
+            "as the only separator and padding of whole statements (groups ws / wserr), and the random generators draw a white-space style per "
+            "template. ExprSyntaxIdx.tla decides 'integer or key' for digit strings of any length by decimal digit arithmetic with the index "
+            "range as an explicit width (abstract range test, the strconv.Atoi transcription, refuted: a wrapping accumulator, a saturating "
+            "one); the boundaries 2^63 / 2^64 +- k, multiples, leading zeros, minus signs are replayed on the compiler and the command line. "
+            "ExprSyntaxEval.tla models the evaluation of ONE compiled template as a machine of frames (per-evaluation stack and accumulators "
+            "versus state owned by a compiled stage): TLC proves for every interleaving of 2-3 workers and for funcs-file functions applied "
+            "to themselves that each evaluation returns the denotation of the tree in its own context, rejects joined argument stages / "
+            "BuildKey sharing one scratch buffer, and exports every schedule for replay on the real code with gated contexts; free-running "
+            "goroutines on random self-applications are recorded and validated by TLC.",
     "note": "Outside the documented domain (only 'returns, no panic' is demanded): escapes inside braces (multi-level in the code), arguments "
-            "containing \" { } \\, quoted keys, adjacent quoted/bare pieces, integers with sign/leading zeros or more than 9 digits, a lone "
+            "containing \" { } \\, quoted keys, adjacent quoted/bare pieces, integers with a plus sign, a lone "
             "trailing backslash, error offsets and the partial output of a template with compile errors. Trusted: TLC, the Go runtime.",
     "technique": "TLA+ functional specification (printer + parser transcription) model-checked with TLC + model-generated vectors replayed "
                  "on the real compiler + TLC validation of recorded compilations",
@@ -89,8 +99,14 @@ def _check(run):
 
     run.assumptions += [
         "domain (ExprSyntax.tla WFTpl): arguments are bare words without \" { } \\ and blanks, or double-quoted strings without \" { } \\; "
-        "keys are words with at least one character that is not a digit or sign; groups are 0..999999999 written without sign or leading "
-        "zeros; separators are 1..n blanks from {space, tab}; top-level text escapes { and \\ and never n t r",
+        "keys are words with at least one character that is not a digit or sign; a lone integer (digits, optional minus sign, leading zeros, "
+        "any length) is the group of that number when the number fits the index type (Go int, 64 bits: -2^63 .. 2^63-1) and a key lookup by "
+        "its text otherwise - never a different group; separators and padding inside braces are 1..n white-space characters (Unicode "
+        "White_Space = unicode.IsSpace, the class the unchanged tokenizer separates on); top-level text escapes { and \\ and never n t r",
+        "evaluation layer: a compiled template may be evaluated by any number of goroutines at once, each with its own context, and a "
+        "funcs-file function may be applied to its own result; every evaluation returns what the tree dictates in its context. The "
+        "gated replay controls the workers only at their context lookups; a schedule that does not fit the lookups the real code makes is "
+        "no verdict (the workers run on), only the returned strings are compared",
         "escapes inside braces, quoted keys, text glued to a nested statement inside an argument, a lone trailing backslash: undocumented, "
         "outside the domain (the compiler only has to return)",
         "for a malformed template only the error classes are demanded (must-report set <= reported <= may-report set), not offsets or output; "
@@ -303,32 +319,183 @@ def _check(run):
         a = b2()
         return a, hist_b2()
 
-    if quick:
-        _, ((nreal, canary, chunks, results), (hn, hcanary, hchunks, hresults)), nhist = parallel([gen, b2_both, hist], 3)
-    else:
-        _, _, nhist, ((nreal, canary, chunks, results), (hn, hcanary, hchunks, hresults)) = parallel(
-            [b3_thorough, gen, hist, b2_both], 4)
+    # ---- integer-versus-key decision (ExprSyntaxIdx) and evaluation layer (ExprSyntaxEval): B3 with negative controls, B1, B2
+    sched_path = os.path.join(run.scratch, "c09-schedules.ndjson")
+    sres_path = os.path.join(run.scratch, "c09-evalsched.json")
+    etrace = os.path.join(run.scratch, "c09-evaltrace.ndjson")
 
-    # ---- B1 verdicts
-    res = json.load(open(res_path))
-    run.cov["b1_vectors"] = res["vectors"]
-    run.cov["b1_compilations"] = res["runs"]
-    run.cov["b1_per_group"] = res["per_group"]
-    run.cov["traces_validated_against_impl"] += res["runs"]
-    run.cov["evaluations"] += res["runs"]
-    run.cov["distinct_nontrivial"] += res["distinct_nontrivial"]
-    for s in res["samples"] or []:
-        run.sample({"b1": s})
-    for m in res["mismatches"] or []:
-        if m["kind"] == "err":
-            exp = "the error classes %s (at most %s)" % (m["lo"], m["hi"])
-        elif m["kind"] == "any":
-            exp = "a result"
-        else:
-            exp = "no error and the rendering %r" % m["expect"]
-        run.violation("b1:%s:%s" % (m["kind"], m["class"]),
-                      "template %r (group %s, optimise=%s) gives %r errors=%s%s; ExprSyntax.tla expects %s" % (
-                          m["text"], m["g"], m["opt"], m["got"], m["errs"], " PANIC " + m["panic"] if m["panic"] else "", exp), m)
+    def ecfg(init, nxt, shared, grain, invs, case=0):
+        return ("INIT %s\nNEXT %s\nCONSTANTS Shared = {%s}\nGrain = \"%s\"\nCaseSel = %d\nINVARIANTS %s\nCHECK_DEADLOCK FALSE\n"
+                % (init, nxt, shared, grain, case, invs))
+
+    wvec_path = os.path.join(run.scratch, "c09-wsvectors.ndjson")
+    wres_path = os.path.join(run.scratch, "c09-wsreplay.json")
+    wcli_path = os.path.join(run.scratch, "c09-wscli.json")
+
+    def idx_eval():
+        out = {}
+        # white space and written integers in whole templates: laws + vectors, replayed on the compiler and the command line
+        r = tlc("ExprSyntax_Gen", _cfg("LawOK Dump", not quick).replace("INIT Init", "INIT WsInit"), workers=1 if quick else 2, timeout=3000,
+                label="ExprSyntax_Gen WsInit (white-space characters, written integers: laws + vectors)")
+        require_clean(run, r, "ExprSyntax_Gen WsInit")
+        nw = 0
+        with open(wvec_path, "w") as f:
+            for v in vfj_lines(r.out):
+                f.write(json.dumps(v, separators=(",", ":")) + "\n")
+                nw += 1
+        if nw < 6000:
+            raise Inconclusive("white-space / index generator produced only %d vectors" % nw)
+        run.drv(["replay", "-in", wvec_path, "-out", wres_path])
+        run.drv(["cli", "-in", wvec_path, "-rare", run.build_cli(), "-out", wcli_path, "-n", 90 if quick else 400])
+        # the index decision: digit arithmetic, all small-width strings, the 32/64-bit boundary families
+        def icfg(mode, invs):
+            return ("INIT Init\nNEXT Next\nCONSTANTS Mode = \"%s\"\nThorough = %s\nINVARIANTS %s\nCHECK_DEADLOCK FALSE\n"
+                    % (mode, "FALSE" if quick else "TRUE", invs))
+        for mode in ("spec", "atoi"):
+            r = tlc("ExprSyntaxIdx_MC", icfg(mode, "LawOK IdxLawOK"), workers=1 if quick else 2, timeout=3000,
+                    label="ExprSyntaxIdx_MC Mode=%s (integer or key, any length)" % mode)
+            require_clean(run, r, "ExprSyntaxIdx_MC Mode=%s" % mode)
+            out["idx_b3_states"] = r.distinct
+        rej = []
+        for mode in ("wrap", "sat"):
+            r = tlc("ExprSyntaxIdx_MC", icfg(mode, "IdxLawOK"), workers=1, timeout=3000,
+                    label="ExprSyntaxIdx_MC Mode=%s (negative control)" % mode)
+            if "IdxLawOK" not in r.violated:
+                raise Inconclusive("negative control %s does not violate IdxFaithful (violated=%s)\n%s" % (mode, r.violated, r.out[-2000:]))
+            rej.append("index parser '%s' violates IdxFaithful" % mode)
+        # evaluation: schedules for the replay (lookup grain) ...
+        r = tlc("ExprSyntaxEval_Gen", ecfg("GInit", "GNext", "", "lookup", "EvalLawsOK Dump"), workers=1, timeout=3000,
+                label="ExprSyntaxEval_Gen (every lookup-grain schedule)")
+        require_clean(run, r, "ExprSyntaxEval_Gen")
+        ns = 0
+        with open(sched_path, "w") as f:
+            for v in vfj_lines(r.out):
+                f.write(json.dumps(v, separators=(",", ":")) + "\n")
+                ns += 1
+        if ns < 300:
+            raise Inconclusive("schedule generator produced only %d schedules" % ns)
+        run.drv(["evalsched", "-in", sched_path, "-out", sres_path])
+        run.drv(["evaltrace", "-out", etrace, "-n", 250 if quick else 1500])
+        # ... every interleaving of single steps
+        r = tlc("ExprSyntaxEval_MC", ecfg("Init", "Next", "", "fine", "EvalLawsOK Terminates"), workers=1 if quick else 2, timeout=3000,
+                label="ExprSyntaxEval_MC (every interleaving of single steps)")
+        require_clean(run, r, "ExprSyntaxEval_MC Shared={}")
+        out["eval_b3_states"] = r.distinct
+        # ... and the designs with a stage-owned accumulator are rejected: two workers without any funcs-file function, one worker
+        # with a function applied to itself
+        for shared, case in (("cat", 1), ("cat", 3), ("seq", 9), ("seq", 10)):
+            r = tlc("ExprSyntaxEval_MC", ecfg("Init", "Next", '"%s"' % shared, "fine", "CompilesOK EvalOK", case=case), workers=1,
+                    timeout=3000, label="ExprSyntaxEval_MC Shared={%s} case %d (negative control)" % (shared, case))
+            if "EvalOK" not in r.violated:
+                raise Inconclusive("negative control Shared={%s} case %d does not violate EvalOK (violated=%s)\n%s" % (
+                    shared, case, r.violated, r.out[-2000:]))
+            rej.append("accumulator of '%s' stages owned by the stage violates EvalOK (pool case %d)" % (shared, case))
+        out["rejected"] = rej
+        # B2: the free-running goroutines
+        lines = open(etrace).read().splitlines()
+        canaries = []
+        for ln in lines[:120]:
+            rec = json.loads(ln)
+            if rec["outs"] and not rec["panic"]:
+                rec["outs"][-1]["out"] = rec["outs"][-1]["out"] + [33]
+                rec["canary"] = True
+                canaries.append(json.dumps(rec, separators=(",", ":")))
+            if len(canaries) >= 20:
+                break
+        allp = os.path.join(run.scratch, "c09-evaltrace-all.ndjson")
+        with open(allp, "w") as f:
+            f.write("\n".join(lines + canaries) + "\n")
+        r = tlc("ExprSyntaxEval_Trace", "SPECIFICATION TSpec\nCONSTANTS Shared = {}\nGrain = \"fine\"\nCaseSel = 0\nINVARIANTS Final\n"
+                "CHECK_DEADLOCK FALSE\n", files=[("trace.ndjson", allp)], workers=1, timeout=3000, xmx="3g", label="ExprSyntaxEval_Trace")
+        if r.violated or r.errors:
+            raise Inconclusive("trace validation ExprSyntaxEval_Trace failed to run: %s %s\n%s" % (r.violated, r.errors[:3], r.out[-3000:]))
+        bad = r.json_out("bad.json")
+        if bad is None:
+            raise Inconclusive("ExprSyntaxEval_Trace wrote no result\n%s" % r.out[-3000:])
+        out["etrace"] = (lines + canaries, len(canaries), bad)
+        return out
+
+    if quick:
+        _, ((nreal, canary, chunks, results), (hn, hcanary, hchunks, hresults)), nhist, ie = parallel([gen, b2_both, hist, idx_eval], 4)
+    else:
+        _, _, nhist, ((nreal, canary, chunks, results), (hn, hcanary, hchunks, hresults)), ie = parallel(
+            [b3_thorough, gen, hist, b2_both, idx_eval], 5)
+
+    # ---- evaluation layer verdicts
+    run.cov["idx_b3_states"] = ie["idx_b3_states"]
+    run.cov["eval_b3_states"] = ie["eval_b3_states"]
+    run.cov["idx_eval_negative_controls"] = ie["rejected"]
+    sres = json.load(open(sres_path))
+    run.cov["b1_eval_schedules"] = sres["schedules"]
+    run.cov["b1_eval_evaluations"] = sres["evaluations"]
+    run.cov["traces_validated_against_impl"] += sres["evaluations"]
+    run.cov["evaluations"] += sres["evaluations"]
+    run.cov["distinct_nontrivial"] += sres["schedules"]
+    for sm in (sres["samples"] or [])[:1]:
+        run.sample({"b1_eval": sm})
+    seen_sig = {}
+    for m in sres["mismatches"] or []:
+        if m["class"] == "compile":
+            raise Inconclusive("evaluation replay could not compile a pool case: %s" % json.dumps(m)[:1000])
+        sig = "b1e:%s:%s" % (m["class"], "workers" if m["workers"] > 1 else "nested")
+        seen_sig[sig] = seen_sig.get(sig, 0) + 1
+        if seen_sig[sig] > 4:
+            continue
+        run.violation(sig, "funcs file [%s], template %r compiled once (optimise=%s), %d worker(s) interleaved at their context lookups as "
+                      "%s%s: worker %d returns %r%s; ExprSyntaxEval.tla (EvalOK) expects %r whatever the interleaving and nesting" % (
+                          "; ".join(m["defs"] or []), m["text"], m["opt"], m["workers"], m["sched"],
+                          " (evaluated alone after schedule %s)" % m["after_schedule"] if m.get("after_schedule") else "",
+                          m["worker"], m["got"], " PANIC " + m["panic"] if m["panic"] else "", m["expect"]), m)
+    elines, ecan, ebad = ie["etrace"]
+    if ebad["consumed"] != len(elines) or not ebad["done"]:
+        raise Inconclusive("evaluation trace: consumed %d of %d records" % (ebad["consumed"], len(elines)))
+    erej = ne = 0
+    for b in ebad["bad"]:
+        rec = json.loads(elines[b["l"] - 1])
+        if rec.get("canary"):
+            erej += 1
+            continue
+        if b["class"] == "harness-compile":
+            raise Inconclusive("evaluation trace record rejected for a reason that is not the evaluator's: %s" % json.dumps(rec)[:1500])
+        ne += 1
+        if ne > 4:
+            continue
+        run.violation("b2e:%s" % b["class"],
+                      "funcs file [%s], template %r compiled once and evaluated by 4 free-running goroutines: observed (worker, output) pairs "
+                      "%s%s are rejected by ExprSyntaxEval_Trace (%s): every evaluation must return the denotation of the tree in its own context" % (
+                          "; ".join(_txt(d[0]) + " " + _txt(d[1]) for d in rec["defs"]), _txt(rec["text"]),
+                          [(o["w"], _txt(o["out"])) for o in rec["outs"][:6]], " PANIC " + rec["pmsg"] if rec["panic"] else "", b["class"]), rec)
+    if erej != ecan:
+        raise Inconclusive("evaluation trace validation rejected only %d of %d deliberately corrupted records" % (erej, ecan))
+    run.cov["b2_eval_templates"] = len(elines) - ecan
+    run.cov["b2_eval_corrupted_rejected"] = "%d of %d" % (erej, ecan)
+    run.cov["traces_validated_against_impl"] += len(elines) - ecan
+    run.cov["evaluations"] += (len(elines) - ecan) * 160
+    run.cov["distinct_nontrivial"] += ebad["nontrivial"] - ecan
+
+    # ---- B1 verdicts (the main case space, then white space / written integers)
+    run.cov["b1_vectors"] = run.cov["b1_compilations"] = 0
+    run.cov["b1_per_group"] = {}
+    for rp in (res_path, wres_path):
+        res = json.load(open(rp))
+        run.cov["b1_vectors"] += res["vectors"]
+        run.cov["b1_compilations"] += res["runs"]
+        run.cov["b1_per_group"].update(res["per_group"])
+        run.cov["traces_validated_against_impl"] += res["runs"]
+        run.cov["evaluations"] += res["runs"]
+        run.cov["distinct_nontrivial"] += res["distinct_nontrivial"]
+        for s_ in (res["samples"] or [])[:3]:
+            run.sample({"b1": s_})
+        for m in res["mismatches"] or []:
+            if m["kind"] == "err":
+                exp = "the error classes %s (at most %s)" % (m["lo"], m["hi"])
+            elif m["kind"] == "any":
+                exp = "a result"
+            else:
+                exp = "no error and the rendering %r" % m["expect"]
+            run.violation("b1:%s:%s" % (m["kind"], m["class"]),
+                          "template %r (group %s, optimise=%s) gives %r errors=%s%s; ExprSyntax.tla expects %s" % (
+                              m["text"], m["g"], m["opt"], m["got"], m["errs"], " PANIC " + m["panic"] if m["panic"] else "", exp), m)
 
     # ---- B1 verdicts, history layer
     hres = json.load(open(hres_path))
@@ -359,19 +526,24 @@ def _check(run):
                       "history on one key builder (optimise=%s, first evaluation %s) %s: %s" % (
                           m["opt"], "at the end of the history" if m.get("deferred") else "at once", " ; ".join(m["history"]), what), m)
 
-    cli = json.load(open(cli_path))
-    run.cov["cli_runs"] = cli["runs"]
-    run.cov["cli_kinds"] = cli["kinds"]
-    run.cov["traces_validated_against_impl"] += cli["runs"]
-    if cli["runs"] < 100:
-        raise Inconclusive("only %d command line runs" % cli["runs"])
-    for s in cli["samples"] or []:
-        run.sample({"cli": s})
-    for m in cli["mismatches"] or []:
-        run.violation("cli:%s:%s" % (m["kind"], m["class"]),
-                      "`rare expression` on %r prints %r (stderr %r); expected %s" % (
-                          m["text"], m["stdout"], m["stderr"][:300],
-                          ("a compile error mentioning %s" % m["lo"]) if m["kind"] == "err" else repr(m["want"])), m)
+    run.cov["cli_runs"] = 0
+    run.cov["cli_kinds"], run.cov["cli_groups"] = {}, {}
+    for cp, least in ((cli_path, 100), (wcli_path, 50)):
+        cli = json.load(open(cp))
+        run.cov["cli_runs"] += cli["runs"]
+        for k, v in cli["kinds"].items():
+            run.cov["cli_kinds"][k] = run.cov["cli_kinds"].get(k, 0) + v
+        run.cov["cli_groups"].update(cli["groups"])
+        run.cov["traces_validated_against_impl"] += cli["runs"]
+        if cli["runs"] < least:
+            raise Inconclusive("only %d command line runs" % cli["runs"])
+        for s_ in (cli["samples"] or [])[:2]:
+            run.sample({"cli": s_})
+        for m in cli["mismatches"] or []:
+            run.violation("cli:%s:%s" % (m["kind"], m["class"]),
+                          "`rare expression` on %r prints %r (stderr %r); expected %s" % (
+                              m["text"], m["stdout"], m["stderr"][:300],
+                              ("a compile error mentioning %s" % m["lo"]) if m["kind"] == "err" else repr(m["want"])), m)
 
     # ---- B2 verdicts
     consumed = nontrivial = canary_rejected = 0
@@ -389,9 +561,12 @@ def _check(run):
                 raise Inconclusive("trace record rejected for a reason that is not the compiler's (%s): %s" % (
                     bad["class"], json.dumps(rec)[:1500]))
             run.violation("b2:%s:%s" % (rec["kind"], bad["class"]),
-                          "recorded compilation of %r: optimised -> %r errors=%s, unoptimised -> %r errors=%s%s is rejected by "
+                          "recorded compilation of %r: optimised -> %r errors=%s, unoptimised -> %r errors=%s%s%s is rejected by "
                           "ExprSyntax.tla (%s)" % (_txt(rec["text"]), _txt(rec["out"]), rec["errs"], _txt(rec["out2"]), rec["errs2"],
-                                                   " PANIC " + rec.get("pmsg", "") if rec["panic"] else "", bad["class"]), rec)
+                                                   " PANIC " + rec.get("pmsg", "") if rec["panic"] else "",
+                                                   "; evaluated by 3 goroutines at once -> (worker, output) %s" % [
+                                                       (o["w"], _txt(o["out"])) for o in rec.get("conc", [])[:6]] if bad["class"] == "conc" else "",
+                                                   bad["class"]), rec)
     if canary_rejected != canary:
         raise Inconclusive("trace validation rejected only %d of %d deliberately corrupted records" % (canary_rejected, canary))
     run.cov["b2_corrupted_records_rejected"] = "%d of %d" % (canary_rejected, canary)
